@@ -1171,7 +1171,7 @@ package gmars
 //@ func (*parser).next
 //@   panics [C05]
 //@   requires parserOK(p)
-//@   modifies p.atEOF, p.nextToken, p.line
+//@   modifies p.atEOF, p.nextToken, p.line, ghost p.lex.*
 //@   ensures parserOK(p)
 //@ func (*parser).loadPredefinedSymbols
 //@   panics [C05]
@@ -1180,17 +1180,17 @@ package gmars
 //@ func (*parser).consumeEmitLine
 //@   panics [C05]
 //@   requires parserOK(p)
-//@   modifies p.*, p.lines[*]
+//@   modifies p.*, p.lines[*], ghost p.lex.*
 //@   ensures parserOK(p)
 //@ func parseLine
 //@   panics [C05]
 //@   requires parserOK(p)
-//@   modifies p.*, p.lines[*], p.symbols[*], p.references[*], p.currentLine.labels[*], p.currentLine.a[*], p.currentLine.b[*]
+//@   modifies p.*, p.lines[*], p.symbols[*], p.references[*], p.currentLine.labels[*], p.currentLine.a[*], p.currentLine.b[*], ghost p.lex.*
 //@   ensures parserOK(p)
 //@ func parseEmptyLines
 //@   panics [C05]
 //@   requires parserOK(p)
-//@   modifies p.*, p.lines[*], p.symbols[*], p.references[*], p.currentLine.labels[*], p.currentLine.a[*], p.currentLine.b[*]
+//@   modifies p.*, p.lines[*], p.symbols[*], p.references[*], p.currentLine.labels[*], p.currentLine.a[*], p.currentLine.b[*], ghost p.lex.*
 //@   ensures parserOK(p)
 //@   loop 1
 //@     invariant parserOK(p) && p.symbols == old(p.symbols) && p.references == old(p.references)
@@ -1198,17 +1198,17 @@ package gmars
 //@ func parseComment
 //@   panics [C05]
 //@   requires parserOK(p)
-//@   modifies p.*, p.lines[*], p.symbols[*], p.references[*], p.currentLine.labels[*], p.currentLine.a[*], p.currentLine.b[*]
+//@   modifies p.*, p.lines[*], p.symbols[*], p.references[*], p.currentLine.labels[*], p.currentLine.a[*], p.currentLine.b[*], ghost p.lex.*
 //@   ensures parserOK(p)
 //@ func parseLabels
 //@   panics [C05]
 //@   requires parserOK(p)
-//@   modifies p.*, p.lines[*], p.symbols[*], p.references[*], p.currentLine.labels[*], p.currentLine.a[*], p.currentLine.b[*]
+//@   modifies p.*, p.lines[*], p.symbols[*], p.references[*], p.currentLine.labels[*], p.currentLine.a[*], p.currentLine.b[*], ghost p.lex.*
 //@   ensures parserOK(p)
 //@ func parseColon
 //@   panics [C05]
 //@   requires parserOK(p)
-//@   modifies p.*, p.lines[*], p.symbols[*], p.references[*], p.currentLine.labels[*], p.currentLine.a[*], p.currentLine.b[*]
+//@   modifies p.*, p.lines[*], p.symbols[*], p.references[*], p.currentLine.labels[*], p.currentLine.a[*], p.currentLine.b[*], ghost p.lex.*
 //@   ensures parserOK(p)
 //@   loop 1
 //@     invariant parserOK(p) && p.symbols == old(p.symbols) && p.references == old(p.references)
@@ -1216,12 +1216,12 @@ package gmars
 //@ func parsePseudoOp
 //@   panics [C05]
 //@   requires parserOK(p)
-//@   modifies p.*, p.lines[*], p.symbols[*], p.references[*], p.currentLine.labels[*], p.currentLine.a[*], p.currentLine.b[*]
+//@   modifies p.*, p.lines[*], p.symbols[*], p.references[*], p.currentLine.labels[*], p.currentLine.a[*], p.currentLine.b[*], ghost p.lex.*
 //@   ensures parserOK(p)
 //@ func parsePseudoExpr
 //@   panics [C05]
 //@   requires parserOK(p)
-//@   modifies p.*, p.lines[*], p.symbols[*], p.references[*], p.currentLine.labels[*], p.currentLine.a[*], p.currentLine.b[*]
+//@   modifies p.*, p.lines[*], p.symbols[*], p.references[*], p.currentLine.labels[*], p.currentLine.a[*], p.currentLine.b[*], ghost p.lex.*
 //@   ensures parserOK(p)
 //@   loop 1
 //@     invariant parserOK(p) && p.symbols == old(p.symbols) && p.references == old(p.references)
@@ -1229,17 +1229,17 @@ package gmars
 //@ func parseOp
 //@   panics [C05]
 //@   requires parserOK(p)
-//@   modifies p.*, p.lines[*], p.symbols[*], p.references[*], p.currentLine.labels[*], p.currentLine.a[*], p.currentLine.b[*]
+//@   modifies p.*, p.lines[*], p.symbols[*], p.references[*], p.currentLine.labels[*], p.currentLine.a[*], p.currentLine.b[*], ghost p.lex.*
 //@   ensures parserOK(p)
 //@ func parseModeA
 //@   panics [C05]
 //@   requires parserOK(p)
-//@   modifies p.*, p.lines[*], p.symbols[*], p.references[*], p.currentLine.labels[*], p.currentLine.a[*], p.currentLine.b[*]
+//@   modifies p.*, p.lines[*], p.symbols[*], p.references[*], p.currentLine.labels[*], p.currentLine.a[*], p.currentLine.b[*], ghost p.lex.*
 //@   ensures parserOK(p)
 //@ func parseExprA
 //@   panics [C05]
 //@   requires parserOK(p)
-//@   modifies p.*, p.lines[*], p.symbols[*], p.references[*], p.currentLine.labels[*], p.currentLine.a[*], p.currentLine.b[*]
+//@   modifies p.*, p.lines[*], p.symbols[*], p.references[*], p.currentLine.labels[*], p.currentLine.a[*], p.currentLine.b[*], ghost p.lex.*
 //@   ensures parserOK(p)
 //@   loop 1
 //@     invariant parserOK(p) && p.symbols == old(p.symbols) && p.references == old(p.references)
@@ -1247,17 +1247,17 @@ package gmars
 //@ func parseComma
 //@   panics [C05]
 //@   requires parserOK(p)
-//@   modifies p.*, p.lines[*], p.symbols[*], p.references[*], p.currentLine.labels[*], p.currentLine.a[*], p.currentLine.b[*]
+//@   modifies p.*, p.lines[*], p.symbols[*], p.references[*], p.currentLine.labels[*], p.currentLine.a[*], p.currentLine.b[*], ghost p.lex.*
 //@   ensures parserOK(p)
 //@ func parseModeB
 //@   panics [C05]
 //@   requires parserOK(p)
-//@   modifies p.*, p.lines[*], p.symbols[*], p.references[*], p.currentLine.labels[*], p.currentLine.a[*], p.currentLine.b[*]
+//@   modifies p.*, p.lines[*], p.symbols[*], p.references[*], p.currentLine.labels[*], p.currentLine.a[*], p.currentLine.b[*], ghost p.lex.*
 //@   ensures parserOK(p)
 //@ func parseExprB
 //@   panics [C05]
 //@   requires parserOK(p)
-//@   modifies p.*, p.lines[*], p.symbols[*], p.references[*], p.currentLine.labels[*], p.currentLine.a[*], p.currentLine.b[*]
+//@   modifies p.*, p.lines[*], p.symbols[*], p.references[*], p.currentLine.labels[*], p.currentLine.a[*], p.currentLine.b[*], ghost p.lex.*
 //@   ensures parserOK(p)
 //@   loop 1
 //@     invariant parserOK(p) && p.symbols == old(p.symbols) && p.references == old(p.references)
@@ -1268,32 +1268,32 @@ package gmars
 //@ func (*symbolScanner).next
 //@   panics [C05]
 //@   requires scannerOK(p)
-//@   modifies p.atEOF, p.nextToken
+//@   modifies p.atEOF, p.nextToken, ghost p.lex.*
 //@   ensures scannerOK(p)
 //@ func (*symbolScanner).consume
 //@   panics [C05]
 //@   requires scannerOK(p)
-//@   modifies p.atEOF, p.nextToken
+//@   modifies p.atEOF, p.nextToken, ghost p.lex.*
 //@   ensures scannerOK(p)
 //@ func scanLine
 //@   panics [C05]
 //@   requires scannerOK(p)
-//@   modifies p.*, p.symbols[*], p.labelBuf[*], p.valBuf[*]
+//@   modifies p.*, p.symbols[*], p.labelBuf[*], p.valBuf[*], ghost p.lex.*
 //@   ensures scannerOK(p)
 //@ func scanLabels
 //@   panics [C05]
 //@   requires scannerOK(p)
-//@   modifies p.*, p.symbols[*], p.labelBuf[*], p.valBuf[*]
+//@   modifies p.*, p.symbols[*], p.labelBuf[*], p.valBuf[*], ghost p.lex.*
 //@   ensures scannerOK(p)
 //@ func scanConsumeLine
 //@   panics [C05]
 //@   requires scannerOK(p)
-//@   modifies p.*, p.symbols[*], p.labelBuf[*], p.valBuf[*]
+//@   modifies p.*, p.symbols[*], p.labelBuf[*], p.valBuf[*], ghost p.lex.*
 //@   ensures scannerOK(p)
 //@ func scanEquValue
 //@   panics [C05]
 //@   requires scannerOK(p)
-//@   modifies p.*, p.symbols[*], p.labelBuf[*], p.valBuf[*]
+//@   modifies p.*, p.symbols[*], p.labelBuf[*], p.valBuf[*], ghost p.lex.*
 //@   ensures scannerOK(p)
 //@   loop 1
 //@     invariant scannerOK(p) && p.symbols == old(p.symbols) && (fresh(arr(p.valBuf)) || arr(p.valBuf) == old(arr(p.valBuf)))
